@@ -30,7 +30,7 @@ from hpstatic.xrnorm import atom_rewrite
 from .common import SCATTERER, self_attr_stores, path_has, norm_cond, as_difference, is_sum
 from hpstatic.logic import cmp_is
 
-MUTATION_TARGETS = {'holopy/scattering/scatterer/scatterer.py': ['in_domain', 'index_at', 'contains', 'translated', '__init__'], 'holopy/scattering/scatterer/sphere.py': ['indicators', '__init__'], 'holopy/scattering/scatterer/ellipsoid.py': ['indicators'], 'holopy/scattering/scatterer/csg.py': ['in_domain', 'translated'], 'holopy/scattering/scatterer/spherecluster.py': ['overlaps', 'largest_overlap', '__init__', 'add'], 'holopy/core/math.py': ['cartesian_distance']}
+MUTATION_TARGETS = {'holopy/scattering/scatterer/scatterer.py': ['in_domain', 'index_at', 'contains', 'translated', '__init__', 'find_bounds'], 'holopy/scattering/scatterer/sphere.py': ['indicators', '__init__'], 'holopy/scattering/scatterer/ellipsoid.py': ['indicators'], 'holopy/scattering/scatterer/csg.py': ['in_domain', 'translated'], 'holopy/scattering/scatterer/spherecluster.py': ['overlaps', 'largest_overlap', '__init__', 'add'], 'holopy/core/math.py': ['cartesian_distance']}
 
 LEVEL = 'other'
 META = dict(
@@ -38,7 +38,9 @@ META = dict(
     technique='mod/ref analysis of translated vs in_domain per class (MRO-aware); '
               'boolean-structure extraction of the CSG set operations; canonical-form '
               'comparison of indicator inequalities and overlap tests; late-binding '
-              'closure lint; CFG raising paths of the constructors',
+              'closure lint; CFG raising paths of the constructors'
+              '; root analysis of the six probe points of find_bounds through the sea'
+              'rch recurrences',
     level_text='Static: K1-K5 are decided exhaustively over every Scatterer subclass '
                'and every pair enumeration in the source.  They are the analytic '
                'inequalities themselves (K2-K4) and necessary conditions of the '
